@@ -128,6 +128,16 @@ PropLatest == [][ (act'.e = "msg" /\ Len(S'.hist) = Len(S.hist) + 1) =>
                      /\ \A a \in 1..Len(r.args) :
                           (r.args[a].k = "obj" /\ r.args[a].new) => r.args[a].obj.gen = Len(d[r.args[a].obj.id]) - 1 ]_vars
 
+\* C03: an object's life ends exactly at the delete_id naming its id or - for a server-range id - when that id is handed
+\* out again; nothing else ends it (the other half, never alive again, is PropNoResurrect)
+Creates(m, i) == \E a \in 1..Len(m.args) : m.args[a].k = "new" /\ m.args[a].id = i
+PropLifeEnds == [][ \A k \in 1..Len(S.conns) : \A i \in DOMAIN S.conns[k].db : \A g \in 1..Len(S.conns[k].db[i]) :
+                      LET o == S.conns[k].db[i][g]  o2 == S'.conns[k].db[i][g]
+                          mine == act'.e = "msg" /\ S.conns[k].open /\ TagOf(act'.tag) = S.conns[k].tag
+                          del  == mine /\ act'.m.name = "delete_id" /\ act'.m.tid = 1 /\ act'.m.args[1].v = i
+                          again == mine /\ IsServerId(i) /\ Creates(act'.m, i)
+                      IN o.alive => ((~o2.alive) <=> (del \/ again)) ]_vars
+
 \* C04: what a connection's table holds depends only on its own lines, however
 \* they are interleaved with other connections' lines (times relative to the common base)
 RECURSIVE SoloDbOf(_, _, _)
